@@ -25,8 +25,8 @@ ASSUMPTIONS = ['rows are identified by a unique id column', 'among equally recen
                'for an exact time `ts = v` the output filter may be `=` or `>` (the repository\'s own test pins `>`)',
                'partition columns contain no NULLs']
 BUDGET = {'quick': (8, 270), 'thorough': (16, 1800)}
-WINDOW = {'ts1': 3, 'ts0': 2, 'ts2': 4}
-GROUPS = {'ts1': ['g'], 'ts0': [], 'ts2': ['g', 'h']}
+WINDOW = {'ts1': 3, 'ts0': 2, 'ts2': 4, 'ts3': 2}
+GROUPS = {'ts1': ['g'], 'ts0': [], 'ts2': ['g', 'h'], 'ts3': ['gts']}     # (ts3: a partition column whose NAME ends with the order column's name)
 
 
 def floors(tier):
@@ -43,15 +43,16 @@ def make_rows(r):
     n = r.randint(0, 14)
     for i in range(n):
         ts = None if r.random() < 0.12 else r.choice([1, 2, 3, 3, 4, 4, 5, 6, 7, 8])
-        rows.append((i + 1, ts, r.choice([1, 1, 2, 3]), r.choice([1, 2]), r.choice([10, 20, None]), r.choice([0, 1])))
+        g_ = r.choice([1, 1, 2, 3])
+        rows.append((i + 1, ts, g_, r.choice([1, 2]), r.choice([10, 20, None]), r.choice([0, 1]), g_))      # (gts: the same values as g)
     return rows
 
 
 def make_db(rows):
     db = sqlite3.connect(':memory:')
     db.execute("attach ':memory:' as int1")
-    db.execute('create table int1.series (rid INTEGER, ts INTEGER, g INTEGER, h INTEGER, v INTEGER, other INTEGER)')
-    db.executemany('insert into int1.series values (?,?,?,?,?,?)', rows)
+    db.execute('create table int1.series (rid INTEGER, ts INTEGER, g INTEGER, h INTEGER, v INTEGER, other INTEGER, gts INTEGER)')
+    db.executemany('insert into int1.series values (?,?,?,?,?,?,?)', rows)
     return db
 
 
@@ -82,7 +83,7 @@ def judge_window(rows, model, op, val, part_filter, got_ids):
     out = []
     window = WINDOW[model]
     groups = GROUPS[model]
-    gi = {'g': 2, 'h': 3}
+    gi = {'g': 2, 'h': 3, 'gts': 6}
     sel = [r for r in rows if part_filter is None or r[2] == part_filter]     # non-time filters
     parts = {}
     for r in sel:
@@ -351,7 +352,7 @@ def run_shard(ctx):
             m = re.search(r't\.ts (>=|<=|>|<|=) (\d+)', text)
             if m:
                 val = int(m.group(2))
-        m = re.search(r't\.g = (\d+)', text)
+        m = re.search(r't\.(?:g|gts) = (\d+)', text)
         part_filter = int(m.group(1)) if m else None
         # (the generator also says what it wrote: conditions may be qualified by the model's alias or written value-first)
         if 'val' in info:
